@@ -10,6 +10,7 @@ package ecs
 //@   ensures result1 ==> addrValid(result0)
 //@
 //@ func (*Policy).Clamp
+//@   modifies nothing
 //@   ensures p == nil || in == nil ==> result == nil
 //@   ensures result != nil ==> result != in && result.SourceScope == 0 && result.Code == dns.EDNS0SUBNET
 //@   ensures result != nil ==> result.SourceNetmask <= in.SourceNetmask && (in.Family == 1 || in.Family == 2) && result.Family == in.Family
